@@ -32,7 +32,9 @@ FAMILIES = {
     "energy": ["J", "erg", "kJ", "eV", "cal", "kg*m2/s2", "N*m"],
     "velocity": ["m/s", "km/h", "mph", "cm/s"],
     "angle": ["rad", "deg", "mrad"],
-    "dimless": [None, "%"],
+    # g/kg and m/km: dimensionless in total but still carrying (cancelling) units once a
+    # plain number has been converted to them in place
+    "dimless": [None, "%", "g/kg", "m/km", "ppth"],
     "power": ["W", "mW", "kW", "dBm", "dBW", "dBmW"],
     "volt": ["V", "mV", "dBV", "dBuV"],
     "temp": ["K", "Cel", "degF", "degR", "mK"],
@@ -40,6 +42,9 @@ FAMILIES = {
     "freq": ["Hz", "kHz", "s-1"],
 }
 LOGU = {"dBm", "dBW", "dBmW", "dBV", "dBuV", "dB", "Np"}
+
+
+_CANDELA = Quantity(1, "cd")
 
 
 def snap(q, deep=False):
@@ -53,12 +58,20 @@ def snap(q, deep=False):
     if isinstance(e, np.ndarray):
         e = e.copy()
     if deep:
+        # the product with one candela: its units are recomputed from q's exponents and, cd
+        # not being used anywhere else, never cancel to a plain number (which would be folded)
         try:
             with np.errstate(all="ignore"):
-                p = (q * 1).units()
+                prod = q * _CANDELA
+                p = prod.units()
+                pv = prod.value()
+                if isinstance(pv, np.ndarray):
+                    pv = tuple(np.asarray(pv, dtype=float).ravel().tolist())
+                else:
+                    pv = float(pv)
         except Exception as ex:
-            p = "raises " + type(ex).__name__
-        return (v, q.units(), e, p)
+            p, pv = "raises " + type(ex).__name__, None
+        return (v, q.units(), e, p, repr(pv))
     return (v, q.units(), e)
 
 
@@ -100,8 +113,20 @@ def same_num(a, b):
         return repr(a) == repr(b)
 
 
+def same_kind(a, b):
+    """float stays float, Decimal stays Decimal, array stays array."""
+    def k(x):
+        if isinstance(x, np.ndarray):
+            return "array"
+        if isinstance(x, Decimal):
+            return "decimal"
+        return "none" if x is None else "number"
+    return k(a) == k(b)
+
+
 def same_snap(a, b):
-    return same_num(a[0], b[0]) and a[1] == b[1] and same_num(a[2], b[2]) and a[3:] == b[3:]
+    return same_num(a[0], b[0]) and a[1] == b[1] and same_num(a[2], b[2]) and a[3:] == b[3:] \
+        and same_kind(a[0], b[0])
 
 
 def show(s):
@@ -183,6 +208,7 @@ class QuantityMachine(Machine):
             "p_refused": 0.0 if fault_free else rng.choice([0.1, 0.25, 0.4]),
             "p_recip": rng.choice([0.0, 0.1, 0.2]),
             "p_value": rng.choice([0.2, 0.5]),
+            "custom_scopes": rng.random() < 0.5,
             "max_chain": 30,
         }
 
@@ -374,6 +400,14 @@ class QuantityMachine(Machine):
 
     def _gen_c04(self, rng):
         cfg = self.cfg
+        if cfg.get("custom_scopes") and rng.random() < 0.08:
+            # conversions to and from a temporary custom unit; the symbols recur with other
+            # magnitudes and dimensions in later scopes of the same run
+            base = rng.choice([[["", "m", 1, 1]], [["", "s", 1, 1]], [["k", "g", 1, 1]],
+                               [["", "m", 1, 1], ["", "s", -1, 1]]])
+            return {"op": "custom_scope", "sym": rng.choice(["span", "tick", "blob"]),
+                    "mag": rng.choice([2.0, 5.0, 0.25, 1e3]), "base": base,
+                    "x": rng.choice([1.0, 3.0, -2.5, 40.0]), "prefix": rng.random() < 0.5}
         if len(self.pool) < 1 or (len(self.pool) < cfg["pool"] and rng.random() < 0.15):
             terms = self._rand_terms(rng) if rng.random() > 0.08 else []
             kind = "array" if cfg["arrays"] and rng.random() < 0.4 else "float"
@@ -724,6 +758,8 @@ class QuantityMachine(Machine):
                 return "skip_range", None
             self._add(q, None, led)
             return "new", text
+        if kind == "custom_scope":
+            return self._apply_custom_scope(op)
         if kind != "conv" or not self.pool:
             return "skip", None
         e = self._slot(op["a"])
@@ -811,6 +847,53 @@ class QuantityMachine(Machine):
         # uncertainty: conserved relative to the value is C08; here only "still readable"
         q.abse()
         return "to_ok:" + rel, [led["text"], n]
+
+    def _apply_custom_scope(self, op):
+        from scinumtools.units import UnitEnvironment
+        base = [list(t) for t in op["base"]]
+        btext = UM.text(base, 0)
+        fb = UM.factor(base)
+        dims = [int(x) if x.denominator == 1 else (x.numerator, x.denominator)
+                for x in UM.dims(base)]
+        sym, mag, x = op["sym"], float(op["mag"]), float(op["x"])
+        units = {sym: {"magnitude": mag * fb, "dimensions": dims,
+                       "prefixes": ["k"] if op.get("prefix") else False}}
+        self.nontrivial = True
+        try:
+            with UnitEnvironment(units):
+                checks = [(Quantity(x, sym).value(btext), x * mag, f"{sym}->{btext}"),
+                          (Quantity(x, btext).value(sym), x / mag, f"{btext}->{sym}")]
+                if op.get("prefix"):
+                    checks.append((Quantity(x, "k" + sym).value(btext), x * mag * 1e3,
+                                   f"k{sym}->{btext}"))
+                q = Quantity(x, sym)
+                q.to(btext)
+                q.to(sym)
+                checks.append((q.value(), x, f"{sym}->{btext}->{sym}"))
+                try:
+                    other = "s" if btext != "s" else "m"
+                    Quantity(x, sym).value(other)
+                    refused = False
+                except Exception:
+                    refused = True
+        except Violation:
+            raise
+        except Exception as e:
+            raise Violation("custom_unit_conversion_failed",
+                            {"symbol": sym, "base": btext, "magnitude": mag,
+                             "error": [type(e).__name__, repr(e.args)[:200]]},
+                            signature="C04/custom/accept_missing")
+        for got, want, what in checks:
+            if not self._close(got, want, 1e-12):
+                raise Violation("converted_value_wrong",
+                                {"conversion": what, "custom_unit": f"{sym} = {mag} {btext}",
+                                 "x": x, "got": safe_repr(got), "want": want},
+                                signature="C04/custom/value")
+        if not refused:
+            raise Violation("conversion_between_dimensions_accepted",
+                            {"from": sym, "custom_unit": f"{sym} = {mag} {btext}"},
+                            signature="C04/custom/refusal_missing")
+        return "custom_ok", [sym, btext]
 
     @staticmethod
     def _close(got, want, tol):
